@@ -201,6 +201,16 @@ def run_shard(spec):
         if cb != cv:
             res.violation(f"channel-roundtrip-mismatch:{label}", f"{first_diff(cv, cb)} value={short(v)}")
 
+    # the same (big) object sent again after it was changed in place, on the same and on another channel: what goes out is
+    # what the object holds at the moment of each send
+    for make, change in ((lambda: [b"x" * 40000, 1], lambda o: o.append("added")), (lambda: {"k": "v" * 50000}, lambda o: o.update(k2=2)),
+                         (lambda: [list(range(12000))], lambda o: o[0].__setitem__(0, "changed")), (lambda: {1, 2, "s" * 40000}, lambda o: o.add(3))):
+        obj = make()
+        for ch_, label_ in [(ech, "pair")] + ([(real_ch, "real")] if real_ch is not None else []):
+            chan_roundtrip(ch_, obj, values.canon(obj), "resend-" + label_)
+            change(obj)
+            chan_roundtrip(ch_, obj, values.canon(obj), "resend-after-change-" + label_)
+            res.count("objects_sent_again_after_a_change")
     for i in range(n):
         if i % 9 == 0:
             v = g.special(i // 9 + spec["shard"])
